@@ -55,15 +55,21 @@ func builtinJSONReviveWalk(ctx builtinJSONParseContext, holder *object, name str
 				}
 			}
 		} else {
+			// ES5 15.12.2 Walk 3.b: the key list is taken before the loop (deleting
+			// while enumerating the live order skipped the following key).
+			var names []string
 			obj.enumerate(false, func(name string) bool {
+				names = append(names, name)
+				return true
+			})
+			for _, name := range names {
 				enumVal := builtinJSONReviveWalk(ctx, obj, name)
 				if enumVal.IsUndefined() {
 					obj.delete(name, false)
 				} else {
 					obj.defineProperty(name, enumVal, 0o111, false)
 				}
-				return true
-			})
+			}
 		}
 	}
 	return ctx.reviver.call(ctx.call.runtime, objectValue(holder), name, value)
